@@ -5,6 +5,7 @@
 From Coq Require Import ZArith Reals.
 From Flocq Require Import Core BinarySingleNaN.
 Require Import MPSV.Dpe.DpeDefs MPSV.Dpe.DpeModel MPSV.Dpe.DpeProps.
+Require Import MPSV.Dpe.DpeArith MPSV.Dpe.DpePow MPSV.Dpe.DpeCplx MPSV.Dpe.DpeSat.
 Open Scope Z_scope.
 
 (* rdpe_Norm returns a normalised value denoting exactly the same real (exponent sum in range) *)
@@ -133,7 +134,8 @@ Theorem C12_saturates_refuted :
 Proof. exact saturates_refuted. Qed.
 Print Assumptions C12_saturates_refuted.
 
-(* ---- partial results (what is missing is said for each) --------------------------------------- *)
+(* ---- partial results of the earlier rounds (kept; what they say is MISSING is now proved below:
+   C12_cmp_correct, C12_add_rel, C12_sub_rel, C12_sqrt_rel) ------------------------------------------ *)
 
 (* rdpe_cmp on the repaired code agrees with the real order when rdpe_sub computes the difference
    exactly: an operand is zero, or same sign and same exponent.  MISSING: operands of different
@@ -190,3 +192,240 @@ Theorem C12_cdpe_div_eq_unfixed_refuted :
   (esp (cre (cdpe_div_eq two four)) = 0 /\ to_bits (mnt (cre (cdpe_div_eq two four))) = to_bits fhalf).
 Proof. exact cdpe_div_eq_unfixed_refuted. Qed.
 Print Assumptions C12_cdpe_div_eq_unfixed_refuted.
+
+(* ================================================================================================== *)
+(* Round 4: every branch of rdpe_add / rdpe_sub, rdpe_cmp, rdpe_sqrt, rdpe_pow_si, the complex          *)
+(* operations, scaling, conversion to double, and "never wraps" at the level of each operation.         *)
+(*   u53 = 2^-53;   rel_e e a v  :=  |a - v| <= e |v|;                                                  *)
+(*   esp_mid e := LONG_MIN + 1074 <= e <= LONG_MAX - 1024  (one rdpe_Norm cannot leave the range)       *)
+(* ================================================================================================== *)
+
+(* rdpe_add, ALL branches, zero operands included: normalised result, 2 ulps in general (the shortcut that
+   drops an operand more than 53 binades smaller), 1 ulp when |e1 - e2| <= 53 (ldexp exact, one rounded
+   addition -- also under cancellation, Flocq FLT_plus_error_N_ex -- and an exact rdpe_Norm) *)
+Theorem C12_add_rel : forall x y, normalised x -> normalised y ->
+  LONG_MIN + 1074 <= esp x <= LONG_MAX - 1024 -> LONG_MIN + 1074 <= esp y <= LONG_MAX - 1024 ->
+  normalised (rdpe_add x y) /\
+  (Rabs (rval (rdpe_add x y) - (rval x + rval y)) <= 2 * bpow radix2 (-53) * Rabs (rval x + rval y))%R /\
+  (-53 <= esp x - esp y <= 53 ->
+   (Rabs (rval (rdpe_add x y) - (rval x + rval y)) <= bpow radix2 (-53) * Rabs (rval x + rval y))%R) /\
+  (esp (rdpe_add x y) = 0 \/ Z.min (esp x) (esp y) - 1074 <= esp (rdpe_add x y) <= Z.max (esp x) (esp y) + 1024).
+Proof. exact add_rel. Qed.
+Print Assumptions C12_add_rel.
+Theorem C12_add_eq_rel : forall x y, normalised x -> normalised y -> esp_mid (esp x) -> esp_mid (esp y) ->
+  normalised (rdpe_add_eq x y) /\ rel_e (2 * u53) (rval (rdpe_add_eq x y)) (rval x + rval y) /\
+  (-53 <= esp x - esp y <= 53 -> rel_e u53 (rval (rdpe_add_eq x y)) (rval x + rval y)) /\
+  (esp (rdpe_add_eq x y) = 0 \/ Z.min (esp x) (esp y) - 1074 <= esp (rdpe_add_eq x y) <= Z.max (esp x) (esp y) + 1024).
+Proof. exact add_eq_rel. Qed.
+Print Assumptions C12_add_eq_rel.
+Theorem C12_sub_rel : forall x y, normalised x -> normalised y ->
+  LONG_MIN + 1074 <= esp x <= LONG_MAX - 1024 -> LONG_MIN + 1074 <= esp y <= LONG_MAX - 1024 ->
+  normalised (rdpe_sub x y) /\
+  (Rabs (rval (rdpe_sub x y) - (rval x - rval y)) <= 2 * bpow radix2 (-53) * Rabs (rval x - rval y))%R /\
+  (-53 <= esp x - esp y <= 53 ->
+   (Rabs (rval (rdpe_sub x y) - (rval x - rval y)) <= bpow radix2 (-53) * Rabs (rval x - rval y))%R) /\
+  (esp (rdpe_sub x y) = 0 \/ Z.min (esp x) (esp y) - 1074 <= esp (rdpe_sub x y) <= Z.max (esp x) (esp y) + 1024).
+Proof. exact sub_rel. Qed.
+Print Assumptions C12_sub_rel.
+Example C12_addsub_nonvacuous :   (* delta = 53 (rounded branch), delta = 54 (shortcut), cancellation to zero *)
+  let a : b64 := of_bits 4607182418800017407 in     (* 1 - 2^-53 *)
+  esp_mid 60 /\ esp_mid 7 /\ esp_mid 6 /\ normalised (Rdpe fhalf 60) /\
+  to_bits (mnt (rdpe_add (Rdpe fhalf 60) (Rdpe a 7))) = 4602678819172646913 /\   (* 60 - 7 = 53: y still counts, last bit set *)
+  same_rdpe (rdpe_add (Rdpe fhalf 60) (Rdpe a 6)) (Rdpe fhalf 60) /\             (* 60 - 6 = 54: dropped *)
+  esp (rdpe_sub (Rdpe a 7) (Rdpe a 7)) = 0.
+Proof.
+  split. unfold esp_mid; vm_compute; split; intro; discriminate.
+  split. unfold esp_mid; vm_compute; split; intro; discriminate.
+  split. unfold esp_mid; vm_compute; split; intro; discriminate.
+  split. apply normalised_half.
+  vm_compute. repeat split; reflexivity.
+Qed.
+
+(* the shortcut branches, exactly: the operand of larger exponent is returned unchanged and the dropped operand
+   is smaller than 2^-53 times it *)
+Theorem C12_add_shortcut_exact : forall x y, normalised x -> normalised y -> nonzero x -> nonzero y ->
+  esp_mid (esp x) -> esp_mid (esp y) ->
+  (53 < esp x - esp y -> rdpe_add x y = x /\ (Rabs (rval y) < bpow radix2 (-53) * Rabs (rval x))%R) /\
+  (53 < esp y - esp x -> rdpe_add x y = y /\ (Rabs (rval x) < bpow radix2 (-53) * Rabs (rval y))%R).
+Proof. exact add_shortcut_exact. Qed.
+Print Assumptions C12_add_shortcut_exact.
+Theorem C12_sub_shortcut_exact : forall x y, normalised x -> normalised y -> nonzero x -> nonzero y ->
+  esp_mid (esp x) -> esp_mid (esp y) ->
+  (53 < esp x - esp y -> rdpe_sub x y = x /\ (Rabs (rval y) < bpow radix2 (-53) * Rabs (rval x))%R) /\
+  (53 < esp y - esp x -> rdpe_sub x y = rdpe_neg y /\ (Rabs (rval x) < bpow radix2 (-53) * Rabs (rval y))%R).
+Proof. exact sub_shortcut_exact. Qed.
+Print Assumptions C12_sub_shortcut_exact.
+
+(* rdpe_cmp (repaired code) is the order of the reals for ALL normalised operands (any signs, any exponent
+   distance): the relative error of rdpe_sub is below 1, so the sign of the computed difference is exact *)
+Theorem C12_cmp_correct : forall x y, normalised x -> normalised y -> esp_mid (esp x) -> esp_mid (esp y) ->
+  rdpe_cmp x y = match Rcompare (rval x) (rval y) with Lt => -1 | Eq => 0 | Gt => 1 end.
+Proof. exact cmp_correct. Qed.
+Print Assumptions C12_cmp_correct.
+
+(* rdpe_sqrt, zero / even / odd exponents (odd: m / 2 is exact), any exponent of long: 1 ulp *)
+Theorem C12_sqrt_rel : forall x, normalised x -> (0 <= B2R (mnt x))%R -> in_long (esp x) ->
+  normalised (rdpe_sqrt x) /\
+  (Rabs (rval (rdpe_sqrt x) - sqrt (rval x)) <= bpow radix2 (-53) * Rabs (sqrt (rval x)))%R.
+Proof. exact sqrt_rel. Qed.
+Print Assumptions C12_sqrt_rel.
+Example C12_sqrt_nonvacuous :    (* odd exponents at both ends of long, and 2 = 0.5 * 2^2 *)
+  esp (rdpe_sqrt (Rdpe fhalf LONG_MAX)) = two62 /\ esp (rdpe_sqrt (Rdpe fhalf (LONG_MIN + 1))) = - two62 + 1 /\
+  Z.odd LONG_MAX = true /\ esp (rdpe_sqrt (Rdpe fhalf 2)) = 1.
+Proof. vm_compute. repeat split; reflexivity. Qed.
+
+(* rdpe_pow_si as coded (repeated squaring; for i < 0 the inverse first): accumulated error (1 + 2^-53)^k - 1
+   with k = i (i >= 0) or k = 2|i| (i < 0); no intermediate leaves the exponent range when
+   2 |i| (|e| + 5) <= 2^61.  EpsZ k = (1 + 2^-53)^k - 1. *)
+Theorem C12_pow_si_rel : forall x i, normalised x -> nonzero x ->
+  2 * (Z.abs i * (Z.abs (esp x) + 5)) <= 2 ^ 61 ->
+  normalised (rdpe_pow_si x i) /\
+  (Rabs (rval (rdpe_pow_si x i) - powerRZ (rval x) i)
+   <= ((1 + bpow radix2 (-53)) ^ Z.to_nat (if i <? 0 then 2 * - i else i) - 1) * Rabs (powerRZ (rval x) i))%R.
+Proof. exact pow_si_rel. Qed.
+Print Assumptions C12_pow_si_rel.
+(* ... in ulps: at most k + 1 ulps as long as k (k + 1) <= 2^53 *)
+Theorem C12_pow_si_ulps : forall x i, normalised x -> nonzero x ->
+  2 * (Z.abs i * (Z.abs (esp x) + 5)) <= 2 ^ 61 -> pow_k i * (pow_k i + 1) <= 2 ^ 53 ->
+  (Rabs (rval (rdpe_pow_si x i) - powerRZ (rval x) i)
+   <= IZR (pow_k i + 1) * bpow radix2 (-53) * Rabs (powerRZ (rval x) i))%R.
+Proof. exact pow_si_ulps. Qed.
+Print Assumptions C12_pow_si_ulps.
+Example C12_pow_si_nonvacuous :   (* 3^5 = 243 = 0.94921875 * 2^8 exactly; 2^-1 = 0.5; x^0 = 1 *)
+  let three := Rdpe fthreeq 2 in
+  normalised three /\ nonzero three /\ 2 * (Z.abs 5 * (Z.abs (esp three) + 5)) <= 2 ^ 61 /\
+  esp (rdpe_pow_si three 5) = 8 /\ to_bits (mnt (rdpe_pow_si three 5)) = 4606725021962862592 /\
+  same_rdpe (rdpe_pow_si (Rdpe fhalf 2) (-1)) (Rdpe fhalf 0) /\ same_rdpe (rdpe_pow_si three 0) rdpe_one.
+Proof.
+  split. apply normalised_threeq. split. apply normalised_threeq.
+  vm_compute. repeat split; try reflexivity; try (intro; discriminate).
+Qed.
+
+(* rdpe_pow_si (x, LONG_MIN) as it was: `i = -i` wraps (UBSan: negation overflow), i stays negative and the
+   arithmetic shift `i >>= 1` never reaches 0 -- the loop `while (i)` does not terminate.  The check replays the call
+   on the real code under UBSan (which stops it at the negation).  Repaired by fixes/C12_pow_si_long_min.patch. *)
+Theorem C12_pow_si_long_min_refuted :
+  neg_wrap LONG_MIN = LONG_MIN /\ forall k : nat, pow_counter_old k (neg_wrap LONG_MIN) <> 0.
+Proof. exact pow_si_long_min_refuted. Qed.
+Print Assumptions C12_pow_si_long_min_refuted.
+Example C12_pow_si_long_min_fixed :    (* repaired code: 64 rounds on the unsigned counter 2^63 *)
+  same_rdpe (rdpe_pow_si (Rdpe fhalf 0) LONG_MIN) RDPE_MAX /\
+  same_rdpe (rdpe_pow_si (Rdpe fhalf 2) LONG_MIN) (Rdpe fhalf (LONG_MIN + 1)) /\
+  same_rdpe (rdpe_pow_si (Rdpe fhalf 3) LONG_MIN) RDPE_MIN /\
+  same_rdpe (rdpe_pow_si (Rdpe fhalf 1) LONG_MIN) rdpe_one.
+Proof. exact pow_si_long_min_fixed. Qed.
+
+(* |c|^2 and |c| : 3 u + 2 u^2 (< 4 ulps) and 4 ulps *)
+Theorem C12_csmod_rel : forall c, cnormalised c -> csmall c ->
+  normalised (cdpe_smod c) /\
+  rel_e (3 * u53 + 2 * u53 * u53) (rval (cdpe_smod c)) (rval (cre c) * rval (cre c) + rval (cim c) * rval (cim c)) /\
+  esp_mid (esp (cdpe_smod c)) /\ (0 <= B2R (mnt (cdpe_smod c)))%R.
+Proof. exact csmod_rel. Qed.
+Print Assumptions C12_csmod_rel.
+Theorem C12_cmod_rel : forall c, cnormalised c -> csmall c ->
+  normalised (cdpe_mod c) /\
+  (Rabs (rval (cdpe_mod c) - sqrt (rval (cre c) * rval (cre c) + rval (cim c) * rval (cim c)))
+   <= 4 * bpow radix2 (-53) * Rabs (sqrt (rval (cre c) * rval (cre c) + rval (cim c) * rval (cim c))))%R.
+Proof. exact cmod_rel. Qed.
+Print Assumptions C12_cmod_rel.
+
+(* cdpe_mul: error in complex modulus, |computed - exact|^2 <= 19 u^2 |exact|^2  (sqrt 19 < 4.36 ulps);
+   the constant is 2 (3u + 2u^2)^2: each component carries one ulp per product and two for the sum,
+   and (|ac| + |bd|)^2 + (|bc| + |ad|)^2 <= 2 |z|^2 |w|^2.   Components may be zero. *)
+Theorem C12_cmul_rel : forall z w, cnormalised z -> cnormalised w -> csmall z -> csmall w ->
+  let a := rval (cre z) in let b := rval (cim z) in let c := rval (cre w) in let d := rval (cim w) in
+  let X := (rval (cre (cdpe_mul z w)) - (a * c - b * d))%R in
+  let Y := (rval (cim (cdpe_mul z w)) - (b * c + a * d))%R in
+  cnormalised (cdpe_mul z w) /\
+  (X * X + Y * Y <= 19 * (u53 * u53) * ((a * c - b * d) * (a * c - b * d) + (b * c + a * d) * (b * c + a * d)))%R.
+Proof. exact cmul_rel. Qed.
+Print Assumptions C12_cmul_rel.
+(* cdpe_sqr: |computed - exact|^2 <= 11 u^2 |exact|^2  (sqrt 11 < 3.32 ulps) *)
+Theorem C12_csqr_rel : forall z, cnormalised z -> csmall z ->
+  let a := rval (cre z) in let b := rval (cim z) in
+  let X := (rval (cre (cdpe_sqr z)) - (a * a - b * b))%R in
+  let Y := (rval (cim (cdpe_sqr z)) - 2 * (a * b))%R in
+  cnormalised (cdpe_sqr z) /\
+  (X * X + Y * Y <= 11 * (u53 * u53) * ((a * a - b * b) * (a * a - b * b) + 2 * (a * b) * (2 * (a * b))))%R.
+Proof. exact csqr_rel. Qed.
+Print Assumptions C12_csqr_rel.
+Example C12_complex_nonvacuous :   (* (1 + i)(1 - i) = 2 ; |3 + 4i| = 5 = 0.625 * 2^3 *)
+  let one_i := Cdpe (Rdpe fhalf 1) (Rdpe fhalf 1) in let one_mi := Cdpe (Rdpe fhalf 1) (Rdpe fmhalf 1) in
+  cnormalised one_i /\ csmall one_i /\
+  same_rdpe (cre (cdpe_mul one_i one_mi)) (Rdpe fhalf 2) /\ same_rdpe (cim (cdpe_mul one_i one_mi)) rdpe_zero /\
+  let z34 := Cdpe (Rdpe fthreeq 2) (Rdpe fhalf 3) in
+  esp (cdpe_mod z34) = 3 /\ to_bits (mnt (cdpe_mod z34)) = 4603804719079489536.
+Proof.
+  split. split; apply normalised_half.
+  split. split; unfold esp_small; vm_compute; intro; discriminate.
+  vm_compute. repeat split; reflexivity.
+Qed.
+(* MISSING (differential + exact predicate only): cdpe_inv, cdpe_div, cdpe_pow_si, cdpe_mul_x have no Coq
+   error theorem; the derivation on paper gives about 5.1 and 8.4 ulps for inv and div. *)
+
+(* ---- "saturating instead of wrapping", operation by operation (repaired code) --------------------------------- *)
+(* rdpe_Norm clamps: exponent = clamp (e + frexp exponent) for a non-zero mantissa, 0 for a zero one *)
+Theorem C12_norm_clamps : forall (m : b64) (e : Z), is_finite m = true -> in_long e ->
+  in_long (esp (rdpe_norm (Rdpe m e))) /\
+  (B2R m <> 0%R -> esp (rdpe_norm (Rdpe m e)) = Z.max LONG_MIN (Z.min LONG_MAX (e + snd (ffrexp m)))) /\
+  (B2R m = 0%R -> esp (rdpe_norm (Rdpe m e)) = 0).
+Proof. exact norm_clamps. Qed.
+Print Assumptions C12_norm_clamps.
+(* rdpe_add_core (s = false) / rdpe_sub (s = true) for ANY exponents of long: the exponent of the result is an
+   operand's exponent, 0, or clamp (max (e1, e2) + i) with i the frexp exponent of the rounded mantissa sum *)
+Theorem C12_addsub_no_wrap : forall (s : bool) x y, normalised x -> normalised y -> nonzero x -> nonzero y ->
+  in_long (esp x) -> in_long (esp y) ->
+  let r := (if s then rdpe_sub else rdpe_add_core) x y in
+  in_long (esp r) /\
+  (esp r = esp x \/ esp r = esp y \/ esp r = 0 \/
+   exists i, -1074 <= i <= 1024 /\ esp r = Z.max LONG_MIN (Z.min LONG_MAX (Z.max (esp x) (esp y) + i))).
+Proof. exact addsub_no_wrap. Qed.
+Print Assumptions C12_addsub_no_wrap.
+(* rdpe_mul: a saturation test fires, or the C addition e1 + e2 (wrap64 in the model) is exact *)
+Theorem C12_mul_no_wrap : forall x y, in_long (esp x) -> in_long (esp y) ->
+  rdpe_mul x y = rdpe_mul_saturate (mnt x) (mnt y) true \/
+  rdpe_mul x y = rdpe_mul_saturate (mnt x) (mnt y) false \/
+  (LONG_MIN < esp x + esp y < LONG_MAX /\
+   rdpe_mul x y = rdpe_norm (Rdpe (fmul (mnt x) (mnt y)) (esp x + esp y))).
+Proof. exact mul_no_wrap. Qed.
+Print Assumptions C12_mul_no_wrap.
+(* rdpe_sqrt: the halved exponent lies within +-2^62, rdpe_Norm never has to clamp *)
+Theorem C12_sqrt_no_wrap : forall x, in_long (esp x) ->
+  exists (f : b64) (E : Z), rdpe_sqrt x = rdpe_norm (Rdpe f E) /\ - two62 <= E <= two62 /\
+    (Z.odd (esp x) = false -> 2 * E = esp x) /\ (Z.odd (esp x) = true -> 2 * E = esp x + 1).
+Proof. exact sqrt_no_wrap. Qed.
+Print Assumptions C12_sqrt_no_wrap.
+(* rdpe_inv, rdpe_sqr, rdpe_div: the exponent goes through rdpe_set_esp (C12_saturates) and then rdpe_Norm
+   (C12_norm_clamps) by definition of the model: *)
+Example C12_inv_sqr_div_shape : forall x y,
+  rdpe_inv x = rdpe_norm (rdpe_set_esp (Rdpe (fdiv fone (mnt x)) (esp x)) 0 (esp x) true) /\
+  rdpe_sqr x = rdpe_norm (rdpe_set_esp (Rdpe (fmul (mnt x) (mnt x)) (esp x)) (esp x) (esp x) false) /\
+  rdpe_div x y = rdpe_norm (rdpe_set_esp (Rdpe (fdiv (mnt x) (mnt y)) (esp x)) (esp x) (esp y) true).
+Proof. intros; repeat split; reflexivity. Qed.
+
+(* scaling (rdpe_mul_2exp / rdpe_div_2exp = rdpe_shift_esp, 0 <= i <= LONG_MAX): exact in range, clamped outside.
+   PARTIAL: i in (LONG_MAX, 2^64) (two or three rounds of the while loop) is covered by the differential only. *)
+Theorem C12_scale_2exp_partial : forall x i (sub : bool), normalised x -> nonzero x -> in_long (esp x) -> 0 <= i <= LONG_MAX ->
+  let r := rdpe_shift_esp x i sub in
+  let s := if sub then esp x - i else esp x + i in
+  esp r = Z.max LONG_MIN (Z.min LONG_MAX s) /\
+  (in_long s -> r = Rdpe (mnt x) s /\ rval r = (rval x * bpow radix2 (if sub then - i else i))%R).
+Proof. exact scale_2exp. Qed.
+Print Assumptions C12_scale_2exp_partial.
+
+(* conversion to double (repaired: exponent clamped to +-4096 before the int cast): correctly rounded to nearest
+   even -- exact in the normal range, rounded into the subnormals, flushed to zero below -- for every value below
+   2^1024.  PARTIAL: the result for e > 1024 (infinity) and the model-internal clamp below -2200 are covered by
+   the differential only. *)
+Theorem C12_get_d_partial : forall x, normalised x -> -2200 <= esp x <= 1024 ->
+  is_finite (rdpe_get_d x) = true /\ B2R (rdpe_get_d x) = round radix2 (SpecFloat.fexp 53 1024) ZnearestE (rval x).
+Proof. exact get_d_rounded. Qed.
+Print Assumptions C12_get_d_partial.
+Theorem C12_get_d_clamped : forall m e, (4096 < e -> rdpe_get_d (Rdpe m e) = rdpe_get_d (Rdpe m 4096)) /\
+  (e < -4096 -> rdpe_get_d (Rdpe m e) = rdpe_get_d (Rdpe m (-4096))).
+Proof. exact get_d_clamped. Qed.
+Print Assumptions C12_get_d_clamped.
+Example C12_get_d_nonvacuous :   (* 0.5 * 2^-1073 = 2^-1074 (smallest subnormal); 0.5 * 2^-1074 rounds to 0 (tie to even) *)
+  to_bits (rdpe_get_d (Rdpe fhalf (-1073))) = 1 /\ to_bits (rdpe_get_d (Rdpe fhalf (-1074))) = 0 /\
+  to_bits (rdpe_get_d (Rdpe fhalf 1025)) = 9218868437227405312 /\ to_bits (rdpe_get_d (Rdpe fhalf LONG_MAX)) = 9218868437227405312.
+Proof. vm_compute. repeat split; reflexivity. Qed.
